@@ -69,12 +69,15 @@ HOSTILE['max'] = HOSTILE['min']
 BIG = '9' * 5000
 SHAPED = {
     'week': ['0999-W01', '10000-W01', '0001-W01', '0000-W01', '2019-W00', '2019-W53', '2020-W53', '2019-W54', BIG + '-W01', '99999-W52',
+             '2147483647-W01', '2147483648-W01', '99999999999-W10', '1' * 20 + '-W01', '9' * 300 + '-W52', '4294967296-W53',
              '2019-W1', '2019-w10', '0100-W53', '123456789-W10', '2019-W10', ''],
     'date': ['0999-01-01', '10000-01-01', '0000-01-01', '2019-02-29', '2020-02-29', '1900-02-29', '2000-02-29', BIG + '-01-01',
+             '2147483648-02-29', '99999999999-12-31', '1' * 20 + '-01-01', '9' * 300 + '-06-30',
              '2019-13-01', '2019-00-10', '2019-01-32', '2019-1-1', '12000-12-31', '2019-06-15', ''],
-    'month': ['0999-01', '10000-12', '0000-01', BIG + '-01', '2019-13', '2019-00', '2019-1', '2019-06', ''],
+    'month': ['0999-01', '10000-12', '0000-01', BIG + '-01', '2019-13', '2019-00', '2019-1', '2019-06', '', '2147483648-01', '9' * 40 + '-12'],
     'time': ['24:00', '23:60', '00:00', '23:59', '-1:00', '1:00', '12:30', '99:99', ''],
     'datetime-local': ['2019-02-29T25:00', '2019-01-01T', 'T10:00', '10000-01-01T00:00', '0999-12-31T23:59', BIG + '-01-01T00:00',
+                       '2147483648-01-01T00:00', '9' * 30 + '-02-28T23:59',
                        '2019-06-15T12:30', '2019-06-15 12:30', ''],
     'number': ['1e999', BIG, '-' + BIG, '.' + BIG, '1.', '.5', '-.5', '+5', '5', 'NaN', 'inf', '0x10', '١٢', '１２', '1_0', ''],
     'range': ['5', '-5', '1e3', BIG, '', ' 5'],
